@@ -96,24 +96,54 @@ def replay_pair(arg):
 
 
 SPELL = [lambda s, d, K, F: (F.from_value(s), F.from_value(d)), lambda s, d, K, F: (s, d), lambda s, d, K, F: (F.from_value(s), d),
-         lambda s, d, K, F: (s.upper(), d.upper()), lambda s, d, K, F: K(s, d), lambda s, d, K, F: K(F.from_value(s), d)]
+         lambda s, d, K, F: (s.upper(), d.upper()), lambda s, d, K, F: K(s, d), lambda s, d, K, F: K(F.from_value(s), d),
+         lambda s, d, K, F: (s.lower(), d.lower()), lambda s, d, K, F: (F.from_value(s).value, F.from_value(d))]
+
+
+def rename_frames(log, idx):
+    """the abstract frames of a registry behaviour are realised by a rotating choice of FrameID members, so that every member (every spelling of
+    its name, whatever the case of its value) takes part"""
+    from perception_eval.common.schema import FrameID
+
+    members = [m.value for m in FrameID]
+    names = sorted({op[k] for op in log for k in ("s", "d") if k in op} | {op["e"][k] for op in log if "e" in op for k in ("src", "dst")})
+    if idx % 3 == 0:
+        return log, {n_: n_ for n_ in names}
+    ren = {n_: members[(idx + 7 * i) % len(members)] for i, n_ in enumerate(names)}
+    if len(set(ren.values())) != len(ren):
+        return log, {n_: n_ for n_ in names}
+    out = []
+    for op in log:
+        op = dict(op)
+        for k in ("s", "d"):
+            if k in op:
+                op[k] = ren[op[k]]
+        if "e" in op:
+            op["e"] = dict(op["e"], src=ren[op["e"]["src"]], dst=ren[op["e"]["dst"]])
+        out.append(op)
+    return out, ren
 
 
 def replay_registry(arg):
     from perception_eval.common.schema import FrameID
     from perception_eval.common.transform import TransformDict, TransformKey
 
-    log, pose = arg
+    log, pose, idx = arg
+    log, ren = rename_frames(log, idx)
     mism = []
     n = 0
     for ctor in ("setitem", "constructor"):
         n += 1
         td = TransformDict()
         regs = []
-        rep = {"log": log, "how": ctor}
+        rep = {"log": log, "how": ctor, "frames": ren}
         for step, op in enumerate(log):
             if op["op"] == "register":
-                M = hm(op["e"], "quat")
+                try:
+                    M = hm(op["e"], "quat")
+                except Exception as ex:
+                    mism.append(("registry-frame-name-rejected", "step %d: a matrix %s -> %s cannot be built from the frame names: %r" % (step, op["e"]["src"], op["e"]["dst"], ex), rep))
+                    break
                 if ctor == "setitem":
                     td[(op["e"]["src"], op["e"]["dst"])] = M
                 else:
@@ -122,8 +152,8 @@ def replay_registry(arg):
             else:
                 answers = []
                 for sp in SPELL:
-                    key = sp(op["s"], op["d"], TransformKey, FrameID)
                     try:
+                        key = sp(op["s"], op["d"], TransformKey, FrameID)
                         r = td.transform(key, tuple(float(v) for v in pose["p"]))
                         answers.append(("ok", tuple(round(float(v), 9) for v in r)))
                     except KeyError:
@@ -204,7 +234,7 @@ def run(ctx: Ctx):
         if st["kind"] in ("pair", "triple") and st["phase"] == "done":
             pairs.append((plain(st["A"]), plain(st["B"]), plain(st["pose"]), plain(st["out"])))
         elif st["kind"] == "registry" and len(st["log"]) > 0 and st["log"][-1]["op"] == "query":
-            regs.append((plain(st["log"]), plain(st["pose"])))
+            regs.append((plain(st["log"]), plain(st["pose"]), len(regs)))
     for items, fn in ((pairs, replay_pair), (regs, replay_registry)):
         outs = pmap(fn, items)
         for it, (n, mism) in zip(items, outs):
